@@ -1345,3 +1345,7 @@ TABLE["C17"] += [
     B("hex-escape-pattern-misses-a-digit", {"Q1"},
       (PW, "re.sub(r'\\\\(x[0-9a-f]{2}|.)'", "re.sub(r'\\\\(x[1-9a-f]{2}|.)'")),
 ]
+TABLE["C10"] += [
+    B("serialize-template-filled-without-its-namespace", {"T10"},
+      (MW, "        return WrapperTemplate.collector_function_serialize.format(\n            class_name=class_name, full_name=full_name, namespace=namespace)", "        return WrapperTemplate.collector_function_serialize.format(\n            class_name=class_name, full_name=full_name)")),
+]
